@@ -25,6 +25,12 @@ fn main() {
         fixed_now = args[1].parse::<i64>().ok();
         args.drain(0..2);
     }
+    // --dates "<date pattern text>": extra date patterns (core/src/parsing/datetime.rs parse_datefile)
+    while args.len() >= 2 && args[0] == "--dates" {
+        ctx.load_date_file(&args[1]);
+        println!("load_date_file: ok");
+        args.drain(0..2);
+    }
     // --defs "<definitions text>": extra user definitions loaded on top of the bundled database
     while args.len() >= 2 && args[0] == "--defs" {
         let r = ctx.load_definitions(&args[1]);
